@@ -23,8 +23,7 @@ theorem saveSubBlock_eq_fold {U : Universe} {s : State} (hI : Inv U s) (fuel a :
     · simp [e] at hg
   | some w => rw [waiting_eq_group hI hg]
 
-theorem foldInv_prefix {U : Universe} {R : State → Prop}
-    (hR : ∀ st ob, R st → ob ∈ st.orphans → stored st ob.parent → R (st.saveBlock ob).1)
+theorem foldInv_prefix {U : Universe} {R : State → Prop} (hR : LoopClosed R)
     {fuel : Nat} (ih : SsbSpec U R fuel) {a : Nat} {s : State} (ha : stored s a) (pre : List Nat) :
     ∀ st w, FoldInv U R a s (s.orphans.length ≤ fuel + 1) st (pre ++ w) →
       FoldInv U R a s (s.orphans.length ≤ fuel + 1) (pre.foldl (visit fuel) st) w := by
@@ -37,12 +36,12 @@ theorem foldInv_prefix {U : Universe} {R : State → Prop}
 theorem waiting_child_present {U : Universe} {s : State} (hI : Inv U s) {a : Nat} (ha : stored s a) (fuel : Nat)
     {pre post : List Nat} {o : Nat} (hw : group s.orphans a = pre ++ o :: post) :
     ∃ ob, lookupHeader (pre.foldl (visit fuel) s).orphans o = some ob ∧ ob.parent = a ∧ ob ∈ s.orphans := by
-  have hR : ∀ (st : State) (ob : Header), True → ob ∈ st.orphans → stored st ob.parent → True := fun _ _ _ _ _ => trivial
+  have hR := loopClosed_true
   have h0 : FoldInv U (fun _ => True) a s (s.orphans.length ≤ fuel + 1) s (pre ++ o :: post) := by
     rw [← hw]; exact foldInv_init hI trivial _
   have h1 := foldInv_prefix hR (ssbSpec hR fuel) ha pre s _ h0
   obtain ⟨ob, hm, hid, hp⟩ := h1.waiting o (List.mem_cons_self ..)
-  refine ⟨ob, ?_, hp, ((h1.grow.mem_orphans ob).mp hm).1⟩
+  refine ⟨ob, ?_, hp, h1.grow.mem hm⟩
   rw [← hid]
   exact lookupHeader_of_mem h1.grow.inv.pool.nodup hm
 
@@ -60,25 +59,32 @@ theorem Desc.mem {os : List Header} {a : Nat} {x : Header} (h : Desc os a x) : x
 inductive SaveReach (s : State) : State → Prop
   | refl : SaveReach s s
   | step {st : State} (ob : Header) : SaveReach s st → SaveReach s (st.saveBlock ob).1
+  | drop {st : State} (o : Nat) : SaveReach s st → SaveReach s (st.orphanDelete o)
+
+theorem saveReach_closed (s : State) : LoopClosed (SaveReach s) :=
+  ⟨fun _ ob h _ _ => SaveReach.step ob h, fun _ o h => SaveReach.drop o h⟩
 
 theorem desc_connected {U : Universe} {R : State → Prop} {a : Nat} {s s' : State} (hI : Inv U s)
-    (g : Grow U s s') (cmp : Complete R a s s') (ha : stored s' a) :
+    (cmp : Complete R a s s') (ha : stored s' a) :
     ∀ x, Desc s.orphans a x →
       stored s' x.id ∨
-      ∃ y, Desc s.orphans a y ∧ (y = x ∨ Desc s.orphans y.id x) ∧ y ∈ s'.orphans ∧ stored s' y.parent ∧ Refused R y := by
+      ∃ y, Desc s.orphans a y ∧ (y = x ∨ Desc s.orphans y.id x) ∧ y ∉ s'.orphans ∧ ¬ stored s' y.id ∧
+        stored s' y.parent ∧ Refused R y := by
   intro x hx
   induction hx with
   | @child x hm hp =>
     by_cases e : stored s' x.id
     · exact Or.inl e
-    · exact Or.inr ⟨x, Desc.child hm hp, Or.inl rfl, (g.mem_orphans x).mpr ⟨hm, e⟩, hp ▸ ha, cmp x hm (Or.inl hp) e⟩
+    · have k := cmp x hm (Or.inl hp)
+      exact Or.inr ⟨x, Desc.child hm hp, Or.inl rfl, k.1, e, hp ▸ ha, k.2 e⟩
   | @step x m hm hd hp ih =>
-    rcases ih with hs | ⟨y, hy, hyx, hyo, hyp, hyr⟩
+    rcases ih with hs | ⟨y, hy, hyx, hyo, hyn, hyp, hyr⟩
     · by_cases e : stored s' x.id
       · exact Or.inl e
       · have hnew : NewS s s' x.parent := ⟨hp ▸ hs, hp ▸ hI.disjoint m hd.mem⟩
-        exact Or.inr ⟨x, Desc.step hm hd hp, Or.inl rfl, (g.mem_orphans x).mpr ⟨hm, e⟩, hnew.1, cmp x hm (Or.inr hnew) e⟩
-    · refine Or.inr ⟨y, hy, Or.inr ?_, hyo, hyp, hyr⟩
+        have k := cmp x hm (Or.inr hnew)
+        exact Or.inr ⟨x, Desc.step hm hd hp, Or.inl rfl, k.1, e, hnew.1, k.2 e⟩
+    · refine Or.inr ⟨y, hy, Or.inr ?_, hyo, hyn, hyp, hyr⟩
       rcases hyx with e | e
       · subst e; exact Desc.child hm hp
       · exact Desc.step hm e hp
@@ -118,16 +124,17 @@ theorem fuel_ge_defs (s : State) : s.defs.length ≤ s.fuel := by unfold State.f
 
 /-- **connection theorem** (model level): `b`'s parent is stored and `saveBlock` accepts `b`; then after
     `processBlock b` every pool member whose chain of parents leads to `b` is stored and out of the
-    pool — unless `saveBlock` refused it or a block `y` on that chain, and then `y` is still in the
-    pool although its parent is stored (open finding F29) -/
+    pool — unless `saveBlock` refused it or a block `y` on that chain: then `y` was dropped (neither
+    stored nor in the pool; before the repair of F29 it stayed in the pool) -/
 theorem processBlock_connects {U : Universe} {s : State} (hI : Inv U s) {b : Header} (hb : Coh U b)
     (hp : stored s b.parent) (hne : ¬ Early s b) (hok : (s.saveBlock b).2 = true)
     (hfuel : s.orphans.length ≤ s.defs.length) :
     stored (s.processBlock b).1 b.id ∧
     ∀ x, Desc s.orphans b.id x →
       (stored (s.processBlock b).1 x.id ∧ x ∉ (s.processBlock b).1.orphans) ∨
-      ∃ y, Desc s.orphans b.id y ∧ (y = x ∨ Desc s.orphans y.id x) ∧ y ∈ (s.processBlock b).1.orphans ∧
-        stored (s.processBlock b).1 y.parent ∧ Refused (SaveReach (s.saveBlock b).1) y := by
+      ∃ y, Desc s.orphans b.id y ∧ (y = x ∨ Desc s.orphans y.id x) ∧ y ∉ (s.processBlock b).1.orphans ∧
+        ¬ stored (s.processBlock b).1 y.id ∧ stored (s.processBlock b).1 y.parent ∧
+        Refused (SaveReach (s.saveBlock b).1) y := by
   rcases processBlock_cases s b with ⟨he, _⟩ | ⟨_, hnp, _⟩ | ⟨_, _, hf, _⟩ | ⟨_, _, _, e, _⟩
   · exact absurd he hne
   · exact absurd hp hnp
@@ -135,12 +142,10 @@ theorem processBlock_connects {U : Universe} {s : State} (hI : Inv U s) {b : Hea
   · have hI1 := inv_saveBlock hI hb
     have g1 := grow_saveBlock hI hb
     have hs1 : stored (s.saveBlock b).1 b.id := (stored_saveBlock_true hok _).mpr (Or.inl rfl)
-    have hR : ∀ (st : State) (ob : Header), SaveReach (s.saveBlock b).1 st → ob ∈ st.orphans → stored st ob.parent →
-        SaveReach (s.saveBlock b).1 (st.saveBlock ob).1 := fun st ob h _ _ => SaveReach.step ob h
-    obtain ⟨g2, _, _, cmp2⟩ := ssbSpec hR (s.saveBlock b).1.fuel (s.saveBlock b).1 b.id hI1 SaveReach.refl hs1
+    obtain ⟨g2, _, _, cmp2⟩ := ssbSpec (saveReach_closed (s.saveBlock b).1) (s.saveBlock b).1.fuel
+      (s.saveBlock b).1 b.id hI1 SaveReach.refl hs1
     have hlen : (s.saveBlock b).1.orphans.length ≤ (s.saveBlock b).1.fuel := by
-      have h1 : (s.saveBlock b).1.orphans.length ≤ s.orphans.length := by
-        rw [g1.pool]; exact List.length_filter_le _ _
+      have h1 : (s.saveBlock b).1.orphans.length ≤ s.orphans.length := g1.sub.length_le
       have h2 := fuel_ge_defs (s.saveBlock b).1
       rw [g1.defs] at h2
       omega
@@ -148,17 +153,18 @@ theorem processBlock_connects {U : Universe} {s : State} (hI : Inv U s) {b : Hea
     have hst3 : ∀ i, stored (s.processBlock b).1 i ↔ stored (connect s b) i := by
       intro i; rw [e, stored_iff, stored_iff]; simp
     have ho3 : (s.processBlock b).1.orphans = (connect s b).orphans := by rw [e]; simp
-    have hsub : ∀ x, x ∈ (s.saveBlock b).1.orphans → x ∈ s.orphans := fun x hx => ((g1.mem_orphans x).mp hx).1
+    have hsub : ∀ x, x ∈ (s.saveBlock b).1.orphans → x ∈ s.orphans := fun x hx => g1.mem hx
     refine ⟨(hst3 _).mpr (g2.mono _ hs1), ?_⟩
     intro x hx
-    rcases desc_connected hI1 g2 cmp (g2.mono _ hs1) x (desc_after_save hI hb hp hok hx) with hs | ⟨y, hy, hyx, hyo, hyp, hyr⟩
+    rcases desc_connected hI1 cmp (g2.mono _ hs1) x (desc_after_save hI hb hp hok hx) with
+      hs | ⟨y, hy, hyx, hyo, hyn, hyp, hyr⟩
     · left
       refine ⟨(hst3 _).mpr hs, ?_⟩
       rw [ho3]
       intro hm
       exact g2.inv.disjoint x hm hs
     · right
-      refine ⟨y, hy.mono hsub, ?_, by rw [ho3]; exact hyo, (hst3 _).mpr hyp, hyr⟩
+      refine ⟨y, hy.mono hsub, ?_, by rw [ho3]; exact hyo, fun k => hyn ((hst3 _).mp k), (hst3 _).mpr hyp, hyr⟩
       rcases hyx with e1 | e1
       · exact Or.inl e1
       · exact Or.inr (e1.mono hsub)
